@@ -730,7 +730,11 @@ Fixpoint init_globals (gs : list gvar) (buffers builtins : list (string * value)
       v <~ match g_kind g with
            | GBuffer | GUniform =>
              match assoc_value (g_block g) buffers with
-             | Some v => coerce (cfuel + 8) true (p_structs P) (g_ty g) v
+             | Some v =>
+               match coerce (cfuel + 8) true (p_structs P) (g_ty g) v with
+               | Fail m => Fail ("TYPE: the members of block " ++ g_block g ++ " do not have the types of the WGSL buffer: " ++ m)
+               | r => r
+               end
              | None => Fail ("HARNESS: no contents supplied for block " ++ g_block g)
              end
            | GBuiltin =>
